@@ -79,6 +79,21 @@ arbitrary = "1"
 }
 
 pub fn workspace_toml(members: &[String]) -> String {
+    workspace_toml_da(members, true)
+}
+
+/// `debug_assertions = false` gives the dev profile of the second ("release-like") sample corpus:
+/// `debug_assert!` / `cfg!(debug_assertions)` branches disappear, overflow checks stay
+pub fn workspace_toml_da(members: &[String], debug_assertions: bool) -> String {
+    let t = workspace_toml_inner(members);
+    if debug_assertions {
+        t
+    } else {
+        t.replacen("debug-assertions = true", "debug-assertions = false", 1)
+    }
+}
+
+fn workspace_toml_inner(members: &[String]) -> String {
     format!(
         r#"[workspace]
 resolver = "2"
@@ -152,7 +167,8 @@ pub fn emit_rt(env: &Env, dir: &Path, name: &str, decls: &[Decl], skip: &BTreeSe
         parts[k].push(d);
     }
     let names: Vec<String> = (0..shards).map(|k| format!("{name}{k}")).collect();
-    write_if_changed(&dir.join("Cargo.toml"), &workspace_toml(&names));
+    // corpora named `nda…` are built without debug assertions
+    write_if_changed(&dir.join("Cargo.toml"), &workspace_toml_da(&names, !name.starts_with("nda")));
     for (k, part) in parts.iter().enumerate() {
         let cdir = dir.join(&names[k]);
         std::fs::create_dir_all(cdir.join("src")).ok();
@@ -271,4 +287,27 @@ pub fn build_rt(env: &Env, dir: &Path, name: &str, decls: &[Decl], release: bool
         }
     }
     Err("corpus build did not converge in 8 rounds".into())
+}
+
+/// A stratified sample of the corpus (up to `per_class` declarations of every catalogue class, with the
+/// bases of sampled twins), for the second build of the run-time corpus under the other setting of
+/// `debug-assertions`.
+pub fn class_sample(decls: &[Decl], per_class: usize) -> Vec<Decl> {
+    let mut count: BTreeMap<String, usize> = BTreeMap::new();
+    let mut picked: BTreeSet<String> = BTreeSet::new();
+    for d in decls {
+        let tag = d.tags.first().cloned().unwrap_or_default();
+        let key: String = tag.split(':').take(2).collect::<Vec<_>>().join(":");
+        let key = if tag.starts_with("random") { "random".to_string() } else { key };
+        let cap = if key == "random" { per_class * 12 } else { per_class };
+        let n = count.entry(key).or_insert(0);
+        if *n < cap {
+            *n += 1;
+            picked.insert(d.id.clone());
+            if let Some(t) = &d.twin_of {
+                picked.insert(t.clone());
+            }
+        }
+    }
+    decls.iter().filter(|d| picked.contains(&d.id)).cloned().collect()
 }
